@@ -45,7 +45,7 @@ type c13run struct {
 func c13model(c *Ctx) {
 	m := newClipModel(c)
 	it := m.it
-	it.maxDepth = 10
+	it.maxDepth = 48
 	it.maxLoop = 200
 	distF := c.P.Func("geom", "distPointToSegment")
 	simpleF := c.P.Func("geom", "segMakesNotSimple")
